@@ -1,6 +1,6 @@
 From AB Require Import Desc Generated GeneratedWf.
 From AB Require Import Tree TreeDefs TreeProofs TreeProofs2 TreeProofs3 TreeProofs4 TreeWF TreeWFProofs TreeRun TreeFacts.
-From AB Require Import Construct ConstructProofs ConstructWF TreeEdit TreeEditProofs TreeEditProofs2 TreeEditProofs3 TreeEditProofs4 TreeEditProofs5 TreeEditFacts.
+From AB Require Import Construct ConstructProofs ConstructWF TreeEdit TreeEditProofs TreeEditProofs2 TreeEditProofs3 TreeEditProofs4 TreeEditProofs5 TreeEditFacts ConstructFull.
 From Coq Require Import ZArith List Bool.
 Import ListNotations.
 
@@ -279,3 +279,39 @@ Proof. exact ex_opt_hyps. Qed.
 Example C05_history_all_slots_example : exists r2, edits2 all_classes ex_open_num r2
   /\ length (node_toks r2) = length (node_toks ex_open_num) /\ leaves r2 <> leaves ex_open_num.
 Proof. exact ex_opt_history. Qed.
+
+(* ---- construction closes the loop (ConstructFull.v): a model built by the generic from_children from admissible
+   donors with fresh tokens is WF and complete in its own store, hereditarily well-formed, hence itself an admissible
+   donor (any class but File); construct, insert somewhere, then any edit history: the C05 statement holds *)
+Theorem C05_constructed_wf : forall cs new mid, classes_ok cs -> forall c args data next store n,
+  classes_anchored cs -> find_class cs (c_name c) = Some c -> wf_desc c = true -> NoDup (names c) ->
+  edges_ok c = true ->
+  args_all args (arg_good cs) -> args_fresh args next ->
+  construct cs new mid c args data next = Some (store, n) ->
+  WF cs n /\ whole_store n store.
+Proof. exact constructed_wf_full. Qed.
+Theorem C05_constructed_hwf : forall cs new mid, classes_ok cs -> forall c args data next store n,
+  classes_anchored cs -> find_class cs (c_name c) = Some c -> wf_desc c = true -> NoDup (names c) ->
+  edges_ok c = true ->
+  args_all args (donor cs) -> args_fresh args next ->
+  construct cs new mid c args data next = Some (store, n) ->
+  HWF cs n.
+Proof. exact constructed_hwf. Qed.
+Theorem C05_constructed_donor : forall cs new mid, classes_ok cs -> forall c args data next store n,
+  classes_anchored cs -> find_class cs (c_name c) = Some c -> wf_desc c = true -> NoDup (names c) ->
+  edges_ok c = true -> mem (c_name c) store_spanning = false ->
+  args_all args (donor cs) -> args_fresh args next ->
+  construct cs new mid c args data next = Some (store, n) ->
+  donor cs n.
+Proof. exact constructed_donor. Qed.
+Theorem C05_construct_insert_history : forall cs new mid, classes_ok cs ->
+  forall c args data next store y root p f i seps root' final,
+  classes_anchored cs -> find_class cs (c_name c) = Some c -> wf_desc c = true -> NoDup (names c) ->
+  edges_ok c = true -> mem (c_name c) store_spanning = false ->
+  args_all args (donor cs) -> args_fresh args next ->
+  construct cs new mid c args data next = Some (store, y) ->
+  HWF cs root -> glue_ok seps -> NoDup (ids (seps ++ store)) -> fresh_for (seps ++ store) root ->
+  insert_item root p f i seps (reattach cs (root_sid root) y) = Some root' ->
+  edits cs root' final ->
+  HWF cs final /\ WF cs final.
+Proof. exact constructed_insert_history. Qed.
